@@ -18,19 +18,19 @@ import (
 // called while the protecting lock is still held).
 
 type recorder struct {
-	mu       sync.Mutex
-	events   []map[string]any
-	seq      int
-	vm       *hmsrt.VM
-	polls    int
-	cancelAt int
-	cancel   context.CancelFunc
-	jitter   *rand.Rand
-	instr    bool
-	instrMax int
+	mu          sync.Mutex
+	events      []map[string]any
+	seq         int
+	vm          *hmsrt.VM
+	polls       int
+	cancelAt    int
+	cancel      context.CancelFunc
+	jitter      *rand.Rand
+	instr       bool
+	instrMax    int
 	afterCancel map[int64]int // instructions executed per core after the cancel was issued
 	cancelled   bool
-	gate     *gates
+	gate        *gates
 }
 
 var rec *recorder
